@@ -95,6 +95,42 @@ def run(ctx):
         ab = R.add(A + Bq)
         R.rel("cat", ["C14"], a=a, b=b, ab=ab)
         npairs += 1
+    # statements that agree in mnemonic and operand TYPES but need different forms (accumulator short forms, moffs, imm8 / imm16,
+    # port in DX / immediate port): each of a, b, a;b, b;a is assembled in a worker process of its own, so that anything the first
+    # statement leaves behind (a memo keyed too coarsely, a flag) meets the second one in a known state
+    R8_, R16_, R32_ = (lambda n: {"t": "r", "w": 8, "n": n}), (lambda n: {"t": "r", "w": 16, "n": n}), (lambda n: {"t": "r", "w": 32, "n": n})
+    I_ = lambda v: {"t": "i", "v": v, "sty": "d"}
+    MA = lambda d: {"t": "m", "w": 0, "aw": 0, "b": -1, "x": -1, "sc": 1, "d": d, "hd": 1, "sty": "h"}
+    M16_ = lambda b: {"t": "m", "w": 0, "aw": 16, "b": b, "x": -1, "sc": 1, "d": 0, "hd": 0}
+    M32_ = lambda b: {"t": "m", "w": 0, "aw": 32, "b": b, "x": -1, "sc": 1, "d": 0, "hd": 0}
+    ins = lambda mn, *ops: {"k": "ins", "mn": mn, "ops": list(ops)}
+    classes = {16: [[ins("MOV", R16_(0), MA(0x1234)), ins("MOV", R16_(0), M16_(3)), ins("MOV", R16_(0), M16_(6))],
+                    [ins("MOV", R8_(0), MA(0x1234)), ins("MOV", R8_(0), M16_(6)), ins("MOV", R8_(1), M16_(6))],
+                    [ins("MOV", MA(0x1234), R16_(0)), ins("MOV", M16_(3), R16_(0))],
+                    [ins("ADD", R16_(0), I_(1)), ins("ADD", R16_(0), I_(1000)), ins("ADD", R16_(3), I_(1)), ins("ADD", R16_(3), I_(1000))],
+                    [ins("ADD", R8_(0), I_(1)), ins("ADD", R8_(3), I_(1)), ins("CMP", R8_(0), I_(1)), ins("CMP", R8_(3), I_(1))],
+                    [ins("CMP", R16_(0), R16_(3)), ins("CMP", R16_(3), R16_(0))],
+                    [ins("IN", R8_(0), I_(0x60)), ins("IN", R8_(0), R16_(2)), ins("OUT", I_(0x60), R8_(0)), ins("OUT", R16_(2), R8_(0))],
+                    [ins("SHL", R16_(0), I_(1)), ins("SHL", R16_(0), I_(4)), ins("SHR", R16_(0), I_(1))],
+                    [ins("MOV", R16_(0), I_(1)), ins("MOV", R16_(3), I_(1)), ins("MOV", R8_(0), I_(1))]],
+               32: [[ins("MOV", R32_(0), MA(0x1234)), ins("MOV", R32_(0), M32_(3)), ins("MOV", R32_(0), M32_(6))],
+                    [ins("MOV", MA(0x1234), R32_(0)), ins("MOV", M32_(3), R32_(0))],
+                    [ins("ADD", R32_(0), I_(1)), ins("ADD", R32_(3), I_(1)), ins("SUB", R32_(0), I_(1)), ins("SUB", R32_(3), I_(1))],
+                    [ins("MOV", R32_(0), R32_(3)), ins("MOV", R32_(3), R32_(0))]]}
+    ncoll = 0
+    for bits, cls in classes.items():
+        pre = [{"k": "bits", "v": 32}] if bits == 32 else []
+        for group in cls:
+            for x in range(len(group)):
+                for y in range(len(group)):
+                    if x == y:
+                        continue
+                    a = R.add(pre + [group[x]], fresh=True)
+                    b = R.add(pre + [group[y]], fresh=True)
+                    ab = R.add(pre + [group[x], group[y]], fresh=True)
+                    R.rel("catany", ["C14"], a=a, b=b, ab=ab)
+                    ncoll += 1
+    npairs += ncoll
     # long runs of one statement - including statements gosk only reports (no handler) or reports although it assembles them -
     # followed by an ordinary tail: the tail's bytes do not depend on how many statements, or diagnostics, came before
     nrep = 0
